@@ -903,8 +903,39 @@ func (p *C09) Generate(seed uint64, run int) *Case {
 	if r.Chance(1, 10) {
 		st.Argv = append([]string{"--debug"}, st.Argv...)
 	}
+	if r.Chance(1, 10) {
+		// the destination of the result fills up (or breaks) after some bytes
+		wp := &simrt.WritePlan{ErrNo: model.Pick(r, []string{"ENOSPC", "ENOSPC", "EIO"}), ErrAfter: model.Pick(r, []int{0, 0, 1, 7, 64, 300, 4096, 65536})}
+		if oi := outArg(st.Argv); oi != "" || r.Chance(1, 2) {
+			if oi == "" {
+				oi = "/sim/full/out.bin"
+				st.Argv = append(st.Argv, "-o", oi)
+			}
+			if st.Files == nil {
+				st.Files = map[string]*simrt.FileSpec{}
+			}
+			if fsp := st.Files[oi]; fsp != nil {
+				fsp.WritePlan = wp
+			} else {
+				st.Files[oi] = &simrt.FileSpec{WritePlan: wp}
+			}
+		} else {
+			st.Stdout = wp
+		}
+		c.Labels = append(c.Labels, "fault:F14:write-error")
+	}
 	c.Steps = []Step{st}
 	return c
+}
+
+func writeLimit(st *Step) int {
+	if st.Stdout != nil {
+		return st.Stdout.ErrAfter
+	}
+	if f := st.Files[outArg(st.Argv)]; f != nil && f.WritePlan != nil {
+		return f.WritePlan.ErrAfter
+	}
+	return -1
 }
 
 var frameRE = regexp.MustCompile(`(?m)^(?:github\.com/berquerant/crd/)?((?:[a-z0-9_]+/)*[a-z0-9_]+)\.([A-Za-z0-9_.()*\[\]]+)\(`)
@@ -982,6 +1013,19 @@ func checkProcess(st *Step, r *Result) []Finding {
 		})
 		return fs
 	}
+	writeFault := ""
+	if r.Journal != nil {
+		for _, f := range r.Journal.Faults {
+			if strings.HasPrefix(f, "write:") {
+				writeFault = f
+			}
+		}
+	}
+	if r.Exit == 0 && writeFault != "" {
+		fs = append(fs, Finding{Signature: "C09/contract/success-despite-write-error/" + cmd,
+			Detail: fmt.Sprintf("`crd %s` exited 0 although writing its result failed (%s; destination full after %d bytes): the result is incomplete and nothing says so; stderr %q", strings.Join(st.Argv, " "), writeFault, writeLimit(st), first(r.Stderr, 120))})
+		return fs
+	}
 	if r.Exit == 0 && r.Journal != nil {
 		for _, f := range r.Journal.Faults {
 			if strings.HasPrefix(f, "read:") {
@@ -996,7 +1040,9 @@ func checkProcess(st *Step, r *Result) []Finding {
 			fs = append(fs, Finding{Signature: "C09/contract/nonzero-exit-without-diagnostic/" + cmd,
 				Detail: fmt.Sprintf("`crd %s` exit %d with empty stderr", strings.Join(st.Argv, " "), r.Exit)})
 		}
-		if len(r.Stdout) > 0 && !hasDebug(st.Argv) {
+		// (after a write fault the bytes that fitted before the destination
+		// filled up are there; nothing else is relaxed)
+		if len(r.Stdout) > 0 && !hasDebug(st.Argv) && writeFault == "" {
 			fs = append(fs, Finding{Signature: "C09/contract/result-on-stdout-of-failed-command/" + cmd,
 				Detail: fmt.Sprintf("`crd %s` exit %d but stdout has %d bytes: %q", strings.Join(st.Argv, " "), r.Exit, len(r.Stdout), first(r.Stdout, 120))})
 		}
